@@ -20,8 +20,10 @@
                        measurements by pointer identity of the events);
     - [result_loop]    the loop of ReproduceEventLog: status per pair, PCR0_DATA repair
                        ([repair]: linear decrement over the goroutine blocks, then bit-flip
-                       combinations), issues, corrected register, and the panics of
-                       newLogEntryExplainer ([explain]);
+                       combinations), issues, corrected register, and the places of
+                       newLogEntryExplainer where a panic is possible ([explain]:
+                       reference look-up and range reads of rangesToChunks /
+                       tryMeasurement, as repaired by e99f02a and dbffb11);
     - [combine]        ReproduceEventLogResult.CombineAsEventLog.
 
     Hashing: nothing here computes SHA.  [Hp m v] stands for "hash, with the bank's
@@ -245,14 +247,14 @@ Definition is_pcr0_meas (m : meas) : bool :=
   | _ => false
   end.
 
-(** isPCRxDataMeasurement: [txtPublicRegisters == nil] is tested before [m] is
-    dereferenced; a nil [m] with registers present is a nil-pointer panic. *)
-Definition is_pcrx (regs_present : bool) (m : option meas) : outcome bool :=
-  if negb regs_present then Ok false
-  else match m with
-       | None => Panic
-       | Some mm => Ok (is_pcr0_meas mm)
-       end.
+(** isPCRxDataMeasurement = getACMPolicyStatusRefFromMeasurement(m, regs) != nil: nil when
+    there are no TXT registers or no measurement ([txtPublicRegisters == nil || m == nil];
+    before fix 60718db a nil [m] with registers present was dereferenced). *)
+Definition is_pcrx (regs_present : bool) (m : option meas) : bool :=
+  regs_present && match m with
+                  | None => false
+                  | Some mm => is_pcr0_meas mm
+                  end.
 
 Section Repair.
 Variable Hp : meas -> Z -> list Z.
@@ -308,44 +310,62 @@ Definition repair (P : Z) (st : settings) (m : meas) (digest : list Z) : option 
   | None => if st_comb_enabled st then comb_search (st_comb_limit st) m digest else None
   end.
 
-(** * newLogEntryExplainer: the parts that can panic *)
+(** * newLogEntryExplainer: the parts that could panic *)
 
 Inductive chunk := ChRaw | ChImage (phys : bool) (off len : Z).
 
-(** rangesToChunks: [expectedMeasurement.Data.References[len(chunks)]] is indexed for
-    every parsed range when a measurement is given. *)
+(** the offset inside the image Reference.RawBytes reads at: PhysMemMapper.Resolve for a
+    physical address ([Offset - 0x100000000 + Size()], uint64), the offset itself otherwise *)
+Definition image_offset (isz : Z) (phys : bool) (off : Z) : Z :=
+  if phys then wrap64 (off - PHYS_ADDR_BASE + isz) else off.
+
+(** rangesToChunks' own test of a non-empty range (fix dbffb11), in uint64:
+    [imageOffset := r.Offset; if phys { imageOffset -= PhysAddrBase - image.Size() };
+     skip if imageOffset > image.Size() || r.Length > image.Size()-imageOffset] *)
+Definition range_fits (isz : Z) (phys : bool) (off len : Z) : bool :=
+  let o := if phys then wrap64 (off - wrap64 (PHYS_ADDR_BASE - isz)) else off in
+  (o <=? isz) && (len <=? isz - o).
+
+(** rangesToChunks.  Per parsed range: the reference [len(chunks)] of the measurement is
+    looked up only when there is one (fix e99f02a: [expectedMeasurement != nil &&
+    len(chunks) < len(References)]; before, the look-up panicked past the end); a range with
+    a length makes an image chunk when it fits the image and is skipped (with a warning)
+    when it does not (fix dbffb11; before, the chunk was made and reading it panicked); an
+    empty range makes a chunk only over a hard-coded reference. *)
 Fixpoint ranges_to_chunks (isz : Z) (m : option meas) (ranges : list (Z * Z)) (chunks : list chunk)
-  : outcome (list chunk) :=
+  : list chunk :=
   match ranges with
-  | [] => Ok chunks
+  | [] => chunks
   | (off, len) :: t =>
-      bind (match m with
-            | None => Ok false
-            | Some mm =>
-                match nth_error (m_refs mm) (length chunks) with
-                | None => Panic
-                | Some r => Ok (rf_kind r =? REF_RAW)
-                end
-            end) (fun raw =>
-      if 0 <? len then ranges_to_chunks isz m t (chunks ++ [ChImage (is_phys_addr off isz) off len])
+      let raw := match m with
+                 | None => false
+                 | Some mm =>
+                     match nth_error (m_refs mm) (length chunks) with
+                     | None => false
+                     | Some r => rf_kind r =? REF_RAW
+                     end
+                 end in
+      if 0 <? len then
+        if range_fits isz (is_phys_addr off isz) off len
+        then ranges_to_chunks isz m t (chunks ++ [ChImage (is_phys_addr off isz) off len])
+        else ranges_to_chunks isz m t chunks
       else if raw then ranges_to_chunks isz m t (chunks ++ [ChRaw])
-      else ranges_to_chunks isz m t chunks)
+      else ranges_to_chunks isz m t chunks
   end.
 
 (** Reference.RawBytes on an image chunk panics unless the whole range can be read *)
 Definition chunk_readable (isz : Z) (c : chunk) : bool :=
   match c with
   | ChRaw => true
-  | ChImage phys off len =>
-      let o := if phys then wrap64 (off - PHYS_ADDR_BASE + isz) else off in
-      (o + len <=? isz)
+  | ChImage phys off len => (image_offset isz phys off + len <=? isz)
   end.
 
+(** tryMeasurement reads every chunk (MeasuredData.ConvertedBytes): a chunk that cannot be
+    read is a panic.  (That none is left is a theorem, not a part of the model.) *)
 Definition explain (isz : Z) (m : option meas) (e : event) : outcome unit :=
   match parse_event_data e isz with
   | Ok p =>
-      bind (ranges_to_chunks isz m (pr_ranges p) []) (fun ch =>
-      if forallb (chunk_readable isz) ch then Ok tt else Panic)
+      if forallb (chunk_readable isz) (ranges_to_chunks isz m (pr_ranges p) []) then Ok tt else Panic
   | Err _ => Ok tt
   | Panic => Panic
   | OutOfFuel => OutOfFuel
@@ -391,8 +411,7 @@ Fixpoint result_loop (P isz : Z) (regs : bool) (st : settings) (idx : Z) (l : li
             push (mkR (a_meas a) (Some c) (Some e) StMatch) []
                  (result_loop P isz regs st (idx + 1) t upd)
           else
-            bind (is_pcrx regs (a_meas a)) (fun p =>
-            match p, a_meas a with
+            match is_pcrx regs (a_meas a), a_meas a with
             | true, Some m =>
                 match repair P st m (ev_digest_bytes e) with
                 | Some r =>
@@ -406,7 +425,7 @@ Fixpoint result_loop (P isz : Z) (regs : bool) (st : settings) (idx : Z) (l : li
                 bind (explain isz (a_meas a) e) (fun _ =>
                 push (mkR (a_meas a) (Some c) (Some e) StMismatch) [IMismatch idx]
                      (result_loop P isz regs st (idx + 1) t upd))
-            end)
+            end
       end
   end.
 
